@@ -109,12 +109,11 @@ Proof. induction n; cbn; [reflexivity | now f_equal]. Qed.
 
 Theorem rmb_emits_zeros i s v :
   text_eqb (mnem i) RMB_t = true -> text_eqb (mnem i) FCB_t = false -> text_eqb (mnem i) FDB_t = false ->
-  v_int v <= 32767 ->
   exists p, translate_operand (OPseudo s v) i = Ok p /\ cp_size p = v_int v /\
             emit_value (cp_op p) = Ok [] /\ emit_value (cp_post p) = Ok [] /\
             emit_value (cp_add p) = Ok (repeat 0 (N.to_nat (v_int v))).
 Proof.
-  intros H1 H2 H3 Hle. cbn [translate_operand]. unfold translate_pseudo. rewrite H2, H3, H1.
+  intros H1 H2 H3. cbn [translate_operand]. unfold translate_pseudo. rewrite H2, H3, H1.
   unfold numv_h, num_of_int. cbn [negb andb]. change (65535 <? 0) with false. cbv iota.
   unfold post_init, init_hint. cbn [is_ext_mode mode_eqb bind].
   eexists. split; [reflexivity|]. unfold data_pkg; cbn [cp_op cp_post cp_add cp_size]. repeat split; try reflexivity.
